@@ -8,7 +8,11 @@ RULE = ("(C type, format spec, value): specs drawn from the format-spec mini-lan
         "width, grouping, precision, type) plus the family the C fast path accepts ([>-]?0*width[doxXc]); values = type "
         "bounds, digit-count boundaries (b^k, b^k-1 for b in 8,10,16), 0x110000/0x200000/2^32 neighbourhoods for 'c', PRNG "
         "values of every bit length; forms: f-string literal spec, dynamic spec, !r/!s/!a, joins, str(), repr(), format(), "
-        "%-templates generated from flags/width/precision/type over C-int and object operands. Distinct by "
+        "%-templates generated from flags/width/precision/type over C-int and object operands; padded 'c' class: every C "
+        "integer type reaching the helper (13 + char, ctypedef, inexact extern typedefs, enum) x widths 0..5 and around the "
+        "helper's 250-padding/256-byte limit (100, 249..258, 300) x pads ' ' and '0' x values at both sides of every branch "
+        "of the range test, the (int) cast, the Latin-1/2-/3-/4-byte encoder guards, the surrogate hole and every bit-field "
+        "edge of the encoded bytes, plus an in-module sweep of EVERY int in range(0x110200) against str.format. Distinct by "
         "(form, type, spec/template, value); non-trivial = the value reaches the digit loop / padding / error branch of its stratum")
 EXPLANATION = ("theorems: for EVERY width w>=1 (sizeof = ceil(w/8)), both signednesses, every in-range value, every width/padding "
                "character and each of d/o/x/X the C loop of CIntToPyUnicode (two digits at a time, last_one_off, sign, "
@@ -16,12 +20,22 @@ EXPLANATION = ("theorems: for EVERY width w>=1 (sizeof = ceil(w/8)), both signed
                "|v| and have no leading zero; no write leaves the sizeof*3+2 byte buffer, no table index is out of range, the C "
                "assert holds, the loop terminates; the tables in the C source equal the computed ones (regenerated each run). "
                "The 'c' range check is refuted as written (F17) and proved for the repaired test. "
+               "Padded 'c' at byte level (__Pyx_PyUnicode_FromOrdinal_Padded): the three UTF-8 encoder branches with their guards, "
+               "masks and shifts, the chars[256] buffer and a strict RFC 3629 decoder are modelled; proved for ALL code points by "
+               "range case analysis: decode(encode cp) = [cp] on U+0080..U+10FFFF minus surrogates, the bytes are the RFC 3629 "
+               "encoding, the guards are tight (a branch too short/long never round-trips), the byte-level helper equals the "
+               "abstract one for every int, width >= 2 and ASCII pad, hence equals CPython's format(v, 'c'-spec); the text has "
+               "max(width,1) characters (padding then the code point); chars[256] suffices for every width. The model's decoder / "
+               "encoder are run against CPython's utf-8 codec, its constants against the C source text. "
                "partial: the compiler's mapping of a spec string to (type,width,pad) (_parse_format), the %-template rewrite, "
                "double formatting (PyOS_double_to_string) and object formatting (PyObject_Format) are compared differentially "
                "with CPython only.")
 TRUSTED = ["CPython's format()/%/str()/repr() in the running interpreter as the property oracle",
            "model of C arithmetic: explicit wrap per conversion (Lib/CInt.v); C '/' and '%' = Z.quot/Z.rem",
-           "PyUnicode_FromOrdinal / PyUnicode_DecodeUTF8 / DecodeLatin1 modelled by their documented contract",
+           "PyUnicode_FromOrdinal / DecodeLatin1 modelled by their documented contract; PyUnicode_DecodeUTF8(errors=NULL) "
+           "modelled as the strict RFC 3629 decoder utf8_decode (compared with bytes.decode('utf-8') on boundary and random byte strings)",
+           "the constants of __Pyx_PyUnicode_FromOrdinal_Padded (guards, padding_length <= 250, chars[256]) are tied to the model "
+           "textually (regex over the C source) because a stack-buffer overrun is not observable from results",
            "gcc as a conforming C compiler for the generated module"]
 ASSUMPTIONS = ["LP64: char 8, short 16, int 32, long/long long/Py_ssize_t/size_t 64 bits",
                "CYTHON_USE_UNICODE_INTERNALS=1 (CPython) branch of BuildFromAscii"]
